@@ -312,6 +312,10 @@ def run(ctx, replay=None):
                                              'trusted_base': common.TRUSTED_BASE, 'explanation': 'build failed'}, [])
         return
     po = common.proof_obligations(ctx.prop)
+    ck = common.coqchk(ctx.prop) if ctx.tier == 'thorough' else None
+    if ck is not None and not ck['ok']:
+        path = common.write_replay(ctx, 'coqchk', {'kind': 'coqchk-failed', 'summary': ck['summary']})
+        common.violation(ctx, path, found_input=False)
     bad = common.hygiene()
     n_obl = len(po['theorems'])
     discharged = n_obl if (po['ok'] and po['all_printed']) else 0
@@ -371,7 +375,7 @@ def run(ctx, replay=None):
         'checker_cmd': 'coqc %s %s  (after ./build.sh)' % (' '.join(common.COQFLAGS), po['file']),
         'trusted_base': common.TRUSTED_BASE + [
             'Print Assumptions: ' + '; '.join('%s: %s' % (t, po['assumptions'].get(t, 'NOT PRINTED')) for t in po['theorems'])],
-        'theorems': po['theorems'], 'hygiene_hits': bad,
+        'coqchk': ({'axioms': ck['axioms'], 'ok': ck['ok']} if ck else 'thorough tier only'), 'theorems': po['theorems'], 'hygiene_hits': bad,
         'evaluations': stats['variants'], 'distinct_nontrivial': len({terms.to_coq(progs[res['idx']]) for res in live}),
         'rule': 'one evaluation = one variant (3 well-behaved namings, 2 adversarial namings, up to 2 declaration orders, 1 rerun after unrelated problems) '
                 'of a small problem from seed %d, built, initialised, solved and enumerated by the real library; distinct_nontrivial counts distinct base problems '
